@@ -309,13 +309,24 @@ def appendFill (cfg : Cfg) (c : Nat) (count : Nat) (v : Ref α) : M α Unit := d
   setSize cfg c (sz + count)
 
 /-- `append(first, last)` for single pass input iterators: one `emplace_back` per element -/
-def appendInput (cfg : Cfg) (c : Nat) : List α → M α Unit
+def appendInputLoop (cfg : Cfg) (c : Nat) : List α → M α Unit
   | [] => pure ()
-  | v :: vs => do emplaceBack cfg c (.copy (.lit v)); appendInput cfg c vs
+  | v :: vs => do emplaceBack cfg c (.copy (.lit v)); appendInputLoop cfg c vs
+
+/-- on an exception the elements appended so far are removed again -/
+def appendInput (cfg : Cfg) (c : Nat) (vals : List α) : M α Unit := do
+  let oldSize ← vsize cfg c
+  tryCatch (appendInputLoop cfg c vals) fun s => do
+    match s with
+    | .exc _ =>
+      destroyN ((← vbegin cfg c).add oldSize) ((← vsize cfg c) - oldSize)
+      setSize cfg c oldSize
+    | .fault _ => pure ()
+    throw s
 
 def assignInput (cfg : Cfg) (c : Nat) (vals : List α) : M α Unit := do
   clear cfg c
-  appendInput cfg c vals
+  appendInputLoop cfg c vals
 
 /-- `insert(pos, first, last)` for single pass input iterators: append, then `std::rotate` into place
     (the rotation is modelled by its net effect on the values) -/
